@@ -562,6 +562,31 @@ func (c *fctx) rangeStmt(o *out, ind int, t *ast.RangeStmt) {
 // environment for the next frame, at most len(buf) bytes of which are stored into buf.
 func (c *fctx) sockCall(o *out, ind int, se *ast.SelectorExpr, call *ast.CallExpr, lhs []ast.Expr, isDefine bool) {
 	c.fi.effectful = true
+	if c.envName() == "FsEnv" { // a regular file: the count a write returns and the error a close returns matter (C20)
+		switch se.Sel.Name {
+		case "Write":
+			name := c.x.envUse(c.envName(), "FileWrite", []string{"Bytes"}, "(Int × GoErr)")
+			tmp := c.fresh("__w")
+			o.emit(ind, "let %s := (← %s %s)", tmp, name, c.expr(call.Args[0]))
+			if len(lhs) == 2 {
+				c.define(o, ind, lhs[0], tmp+".1", isDefine)
+				c.define(o, ind, lhs[1], tmp+".2", isDefine)
+			} else if lhs != nil {
+				bad("file Write at %s", c.site(call.Pos()))
+			}
+			return
+		case "Close":
+			name := c.x.envUse(c.envName(), "FileClose", nil, "GoErr")
+			tmp := c.fresh("__c")
+			o.emit(ind, "let %s := (← %s)", tmp, name)
+			if len(lhs) == 1 {
+				c.define(o, ind, lhs[0], tmp, isDefine)
+			} else if lhs != nil {
+				bad("file Close at %s", c.site(call.Pos()))
+			}
+			return
+		}
+	}
 	switch se.Sel.Name {
 	case "Read":
 		if len(lhs) != 2 {
